@@ -1,0 +1,18 @@
+//go:build verif
+
+package manager
+
+import "github.com/elnosh/gonuts/mint"
+
+// VerifServer returns an admin server for m that is not bound to a socket.
+// Only compiled with the `verif` build tag; used by the external
+// verification harness to drive the admin RPC in-process.
+func VerifServer(m *mint.Mint) *Server {
+	return &Server{mint: m}
+}
+
+// VerifProcess handles one admin request exactly as a request read
+// from the socket would be handled.
+func (s *Server) VerifProcess(req Request) (Response, *Error) {
+	return s.processRequest(req)
+}
